@@ -154,7 +154,8 @@ def conv_cli_stream(ctx, res, n):
         for a in args:
             if tool == "lst2bas":
                 path = a[:-2] if a[-2:].upper() == ",A" else a
-                content = rng.choice(LISTINGS).encode("utf-8")
+                # one listing in eight is not UTF-8 (a Latin-1 é): readlines() raises after the target was created / truncated
+                content = rng.choice(LISTINGS).encode("utf-8") if rng.random() > 0.125 else b"10 REM \xe9t\xe9\n"
             else:
                 path = a[:-2] if a[-2:].upper() == ",A" else a
                 content = rng.choice(BASICS)
@@ -180,8 +181,13 @@ def conv_cli_stream(ctx, res, n):
         dos = tool == "bas2lst" and rng.random() < 0.5
         if tool == "lst2bas":
             status, _ = run_cli(ListingToBasicCli().run, args, cwd=d)
+            def listing(c):
+                try:
+                    return cps(c.decode("utf-8"))
+                except UnicodeDecodeError:
+                    return "undecodable"
             req = f"conv.lst2bas {len(args)} " + " ".join(cps(a) for a in args) + "".join(
-                f" {cps(p)} {cps(c.decode('utf-8'))}" for p, c in world.items())
+                f" {cps(p)} {listing(c)}" for p, c in world.items())
         else:
             status, _ = run_cli(BasicToListingCli().run, args + (["--dos"] if dos else []), cwd=d)
             req = f"conv.bas2lst {1 if dos else 0} {len(args)} " + " ".join(cps(a) for a in args) + "".join(
